@@ -2,6 +2,7 @@ import PycModel.Proto
 import PycModel.Lexer
 import PycModel.Parser.Stmt
 import PycModel.Generator
+import PycModel.Spec.Expr
 import PycModel.Generated.LexTables
 /-! Model driver: one request per line on stdin, one response per line on stdout. -/
 open PycModel PycModel.Proto
@@ -45,6 +46,26 @@ def handle (line : String) : String :=
     | .parseError loc msg => "PE\t" ++ escape (loc.str ++ ": " ++ msg)
     | .crash k _ => "CRASH\t" ++ crashName k
     | .fuel => "FUEL"
+  | ["c02", "enum", n, lo, hi] =>
+    -- all trees with n operator nodes, indices [lo, hi), three parenthesisations each
+    let all := (Spec.enumExpr n.toNat!).toArray
+    let hi' := min hi.toNat! all.size
+    let idxs := (List.range (hi' - lo.toNat!)).map (· + lo.toNat!)
+    let cases := idxs.flatMap fun i =>
+      let e := (Spec.relabel all[i]! 0).1
+      let k := e.nodes
+      [Spec.mkCase e [] i, Spec.mkCase e (Spec.randDeco k (Spec.lcg (i + 17))) (i + 3),
+       Spec.mkCase e (List.replicate k 1) (i + 5)]
+    toString all.size ++ "\t" ++ "\t".intercalate (cases.map fun (t, d) => rec [t, d])
+  | ["c02", "rand", seed, count, depth] =>
+    let rec go : Nat → Nat → List (String × String) → List (String × String)
+      | 0, _, acc => acc.reverse
+      | n+1, s, acc =>
+        let (e, s1) := Spec.randExpr depth.toNat! s
+        let d := if (s1 / 65536) % 3 == 0 then [] else Spec.randDeco e.nodes s1
+        go n (Spec.lcg s1) (Spec.mkCase e d ((s1 / 7) % 10) :: acc)
+    let cases := go count.toNat! (Spec.lcg (seed.toNat! + 1)) []
+    "\t".intercalate (cases.map fun (t, d) => rec [t, d])
   | op :: _ => "BADOP " ++ op
   | [] => "BADOP"
 
